@@ -454,8 +454,8 @@ pub fn property() -> Property {
                 fixed: None,
                 fixed_exhaustive: false,
                 check: check_texts,
-                quick: 1_600,
-                thorough: 60_000,
+                quick: 6_000,
+                thorough: 120_000,
                 small_stack: false,
             },
             Sub {
@@ -466,8 +466,8 @@ pub fn property() -> Property {
                 fixed: None,
                 fixed_exhaustive: false,
                 check: check_chain,
-                quick: 800,
-                thorough: 30_000,
+                quick: 3_000,
+                thorough: 60_000,
                 small_stack: false,
             },
             Sub {
@@ -478,8 +478,8 @@ pub fn property() -> Property {
                 fixed: None,
                 fixed_exhaustive: false,
                 check: check_chunked,
-                quick: 160,
-                thorough: 6_000,
+                quick: 320,
+                thorough: 8_000,
                 small_stack: false,
             },
         ],
